@@ -396,10 +396,42 @@ def _oniom_name(i, frags, tag):
     return f"oniom/{tag}/{i}/{m['low'].upper()}-{m['high']}/{s}/L{len(m['links'])}" + (f"+{len(frags) - 2}" if len(frags) > 2 else "")
 
 
+def h_dmet_reorder(env, nested, canary=False):
+    """DMET bookkeeping that is pure Python (no claim about DMET energies): nested lists of atom indices are turned into
+    fragment sizes and the geometry is reordered so that the k-th fragment consists of exactly the listed atoms, in the
+    listed order (enumerated, concrete geometry; the mean field of a small H chain is computed by PySCF)"""
+    from tangelo import SecondQuantizedMolecule
+    from tangelo.problem_decomposition import DMETProblemDecomposition
+    from tangelo.toolboxes.molecular_computation.integral_solver_pyscf import mol_to_pyscf
+    from symx import shim
+    n = sum(len(f) for f in nested)
+    xyz = [("H", (0.0, 0.13 * (i % 2), 0.9 * i + 0.07 * i * i)) for i in range(n)]
+    with shim.concrete_mode():
+        mol = SecondQuantizedMolecule(xyz, q=0, spin=0, basis="sto-3g", frozen_orbitals=None)
+        ref = mol_to_pyscf(mol, mol.basis)
+        dmet = DMETProblemDecomposition({"molecule": mol, "fragment_atoms": nested, "fragment_solvers": "ccsd", "verbose": False})
+    flat = [a for f in nested for a in f]
+    if canary:
+        flat = flat[::-1]
+    env.check_same(list(dmet.fragment_atoms), [len(f) for f in nested], "nested index lists become fragment sizes")
+    got = [tuple(round(float(x), 8) for x in dmet.molecule._atom[p][1]) for p in range(n)]
+    want = [tuple(round(float(x), 8) for x in ref._atom[a][1]) for a in flat]
+    env.check_same(got, want, f"atom at position p of the reordered molecule is the p-th listed atom (fragments {nested})")
+
+
 def shapes(tier, seed):
     rnd = random.Random(seed)
     thorough = tier == "thorough"
     out = []
+    import itertools as _it
+    perms = [[[1, 2], [0, 3]], [[0, 1], [2, 3]], [[3, 2], [1, 0]], [[2, 0], [3, 1]], [[1, 2], [0, 3], [5, 4]], [[4], [0, 2, 5], [3, 1]],
+             [[2, 3, 1], [0]]]
+    if thorough:
+        perms += [[list(p[:2]), list(p[2:])] for p in _it.permutations(range(4))][::3]
+    for i, nested in enumerate(perms):
+        nm = "_".join("".join(map(str, f)) for f in nested)
+        out.append(Shape(f"dmet/reorder/{i}_{nm}", h_dmet_reorder, dict(nested=nested)))
+    out.append(Shape("canary/dmet/reorder", h_dmet_reorder, dict(nested=[[1, 2], [0, 3]], canary=True), canary=True))
     n = len(GEOM7)
     # ---- (a) fixed core
     sysHF = dict(low="HF", sel=None)
